@@ -11,15 +11,14 @@ theorem blocked_mk (s : Stat) : ({ st := some s } : Out).blocked =
   simp [Out.blocked]
 
 /-- per-step bundle: same report as the ideal list (which is told whether the call was blocked),
-abstraction commutes, configuration kept, invariant preserved (for the growing calls provided the
-growth function stays in the range of the C cast), ledger balanced, no fault, and every call that
+abstraction commutes, configuration kept, invariant preserved (for every growth function), ledger balanced, no fault, and every call that
 reports an error status leaves the whole state unchanged (C16, C08) -/
 theorem step_spec (cfg : Cfg) (a : Arr) (op : Op) (m : Mem) (hinv : a.Inv) (hlive : 0 < m.live)
     (hsort : ∀ xs, (cfg.sortFn xs).length = xs.length) :
     (a.step cfg op m).1 = (Spec.Seq.step cfg a.abs op (a.step cfg op m).1.blocked).1 ∧
     (a.step cfg op m).2.1.abs = (Spec.Seq.step cfg a.abs op (a.step cfg op m).1.blocked).2 ∧
     (a.step cfg op m).2.1.grow = a.grow ∧
-    (a.grow a.capacity ≤ Gen.CC_MAX_ELEMENTS → (a.step cfg op m).2.1.Inv) ∧
+    (a.step cfg op m).2.1.Inv ∧
     (a.step cfg op m).2.2.live = m.live ∧ (a.step cfg op m).2.2.fault = m.fault ∧
     (∀ st, (a.step cfg op m).1.st = some st → st ≠ .ok → (a.step cfg op m).2.1 = a) := by
   cases op with
@@ -28,11 +27,11 @@ theorem step_spec (cfg : Cfg) (a : Arr) (op : Op) (m : Mem) (hinv : a.Inv) (hliv
     simp only [step, Spec.Seq.step, blocked_mk]
     rcases sp with ⟨ok, habs, hg⟩ | ⟨hb, hsame⟩
     · simp only [ok, Spec.Seq.add]
-      refine ⟨by simp, by simpa using habs, hg.2.2.2.2, fun h => hg.inv hinv h, sl, sf, fun st h1 h2 => ?_⟩
+      refine ⟨by simp, by simpa using habs, hg.2.2.2.2, hg.inv hinv, sl, sf, fun st h1 h2 => ?_⟩
       simp at h1; exact absurd h1.symm h2
     · rcases hb.1 with ⟨h, _⟩ | ⟨h, _⟩ <;>
       · simp only [h, hsame]
-        exact ⟨by simp, by simp, by triv, fun _ => hinv, sl, sf, fun _ _ _ => by triv⟩
+        exact ⟨by simp, by simp, by triv, hinv, sl, sf, fun _ _ _ => by triv⟩
   | addAt x i =>
     obtain ⟨sp, sl, sf⟩ := addAt_spec a x i m hinv hlive
     simp only [step, Spec.Seq.step, blocked_mk]
@@ -40,69 +39,69 @@ theorem step_spec (cfg : Cfg) (a : Arr) (op : Op) (m : Mem) (hinv : a.Inv) (hliv
     · have hi' : i ≤ a.abs.length := by simpa using hi
       rcases sp with ⟨ok, habs, hg⟩ | ⟨hb, hsame⟩
       · simp only [ok, Spec.Seq.addAt, hi', if_true]
-        refine ⟨by simp, by simpa using habs, hg.2.2.2.2, fun h => hg.inv hinv h, sl, sf, fun st h1 h2 => ?_⟩
+        refine ⟨by simp, by simpa using habs, hg.2.2.2.2, hg.inv hinv, sl, sf, fun st h1 h2 => ?_⟩
         simp at h1; exact absurd h1.symm h2
       · rcases hb.1 with ⟨h, _⟩ | ⟨h, _⟩ <;>
         · simp only [h, hsame]
-          exact ⟨by simp, by simp, by triv, fun _ => hinv, sl, sf, fun _ _ _ => by triv⟩
+          exact ⟨by simp, by simp, by triv, hinv, sl, sf, fun _ _ _ => by triv⟩
     · have hi' : ¬ i ≤ a.abs.length := by simp; omega
       simp only [heq, Spec.Seq.addAt, hi', if_false]
-      exact ⟨by simp, by simp, by triv, fun _ => hinv, by triv, by triv, fun _ _ _ => by triv⟩
+      exact ⟨by simp, by simp, by triv, hinv, by triv, by triv, fun _ _ _ => by triv⟩
   | trimCapacity =>
     obtain ⟨sp, sl, sf⟩ := trimCapacity_spec a m hinv hlive
     simp only [step, Spec.Seq.step, blocked_mk]
     rcases sp with ⟨ok, habs, _, _, hi, hg⟩ | ⟨h, _, hsame⟩
     · simp only [ok]
-      refine ⟨by simp, by simpa using habs, hg, fun _ => hi, sl, sf, fun st h1 h2 => ?_⟩
+      refine ⟨by simp, by simpa using habs, hg, hi, sl, sf, fun st h1 h2 => ?_⟩
       simp at h1; exact absurd h1.symm h2
     · simp only [h, hsame]
-      exact ⟨by simp, by simp, by triv, fun _ => hinv, sl, sf, fun _ _ _ => by triv⟩
+      exact ⟨by simp, by simp, by triv, hinv, sl, sf, fun _ _ _ => by triv⟩
   | replaceAt x i =>
     obtain ⟨r1, r2, r3, r4, r5, r6, r7, r8⟩ := replaceAt_spec a x i m hinv
     simp only [step, Spec.Seq.step]
-    refine ⟨by rw [r1, r2], r3, r5.2.2, fun _ => r5.inv hinv (by omega), by rw [r6], by rw [r6], fun st h1 h2 => ?_⟩
+    refine ⟨by rw [r1, r2], r3, r5.2.2, r5.inv hinv (by omega), by rw [r6], by rw [r6], fun st h1 h2 => ?_⟩
     simp only [Option.some.injEq] at h1
     exact r7 (by rw [h1]; exact h2)
   | swapAt i j =>
     obtain ⟨r1, r2, r3, r4, r5, r6, r7⟩ := swapAt_spec a i j m hinv
     simp only [step, Spec.Seq.step]
-    refine ⟨by rw [r1], r2, r4.2.2, fun _ => r4.inv hinv (by omega), by rw [r5], by rw [r5], fun st h1 h2 => ?_⟩
+    refine ⟨by rw [r1], r2, r4.2.2, r4.inv hinv (by omega), by rw [r5], by rw [r5], fun st h1 h2 => ?_⟩
     simp only [Option.some.injEq] at h1
     exact r6 (by rw [h1]; exact h2)
   | remove x =>
     obtain ⟨r1, r2, r3, r4, r5, r6, r7, r8⟩ := remove_spec a x m hinv
     simp only [step, Spec.Seq.step]
-    refine ⟨by rw [r1, r2], r3, r4.2.2, fun _ => r4.inv hinv r5, by rw [r6], by rw [r6], fun st h1 h2 => ?_⟩
+    refine ⟨by rw [r1, r2], r3, r4.2.2, r4.inv hinv r5, by rw [r6], by rw [r6], fun st h1 h2 => ?_⟩
     simp only [Option.some.injEq] at h1
     exact r7 (by rw [h1]; exact h2)
   | removeAt i =>
     obtain ⟨r1, r2, r3, r4, r5, r6, r7, r8, r9⟩ := removeAt_spec a i m hinv
     simp only [step, Spec.Seq.step]
-    refine ⟨by rw [r1, r2], r3, r4.2.2, fun _ => r4.inv hinv r5, by rw [r6], by rw [r6], fun st h1 h2 => ?_⟩
+    refine ⟨by rw [r1, r2], r3, r4.2.2, r4.inv hinv r5, by rw [r6], by rw [r6], fun st h1 h2 => ?_⟩
     simp only [Option.some.injEq] at h1
     exact r7 (by rw [h1]; exact h2)
   | removeLast =>
     obtain ⟨r1, r2, r3, r4, r5, r6, r7, r8, r9⟩ := removeLast_spec a m hinv
     simp only [step, Spec.Seq.step]
-    refine ⟨by rw [r1, r2], r3, r4.2.2, fun _ => r4.inv hinv r5, by rw [r6], by rw [r6], fun st h1 h2 => ?_⟩
+    refine ⟨by rw [r1, r2], r3, r4.2.2, r4.inv hinv r5, by rw [r6], by rw [r6], fun st h1 h2 => ?_⟩
     simp only [Option.some.injEq] at h1
     exact r7 (by rw [h1]; exact h2)
   | removeAll =>
     obtain ⟨r1, r2, r3⟩ := removeAll_spec a
     simp only [step, Spec.Seq.step]
-    exact ⟨by triv, r1, r2.2.2, fun _ => r2.inv hinv (by omega), by triv, by triv, fun st h1 _ => by simp at h1⟩
+    exact ⟨by triv, r1, r2.2.2, r2.inv hinv (by omega), by triv, by triv, fun st h1 _ => by simp at h1⟩
   | removeAllFree =>
     obtain ⟨r1, r2, r3, r4, r5⟩ := removeAllFree_spec a m hinv
     simp only [step, Spec.Seq.step]
-    exact ⟨by rw [r1], r2, r3.2.2, fun _ => r3.inv hinv (by omega), by rw [r5], by rw [r5], fun st h1 _ => by simp at h1⟩
+    exact ⟨by rw [r1], r2, r3.2.2, r3.inv hinv (by omega), by rw [r5], by rw [r5], fun st h1 _ => by simp at h1⟩
   | reverse =>
     obtain ⟨r1, r2, r3, r4⟩ := reverse_spec a m hinv
     simp only [step, Spec.Seq.step]
-    exact ⟨by triv, r1, r2.2.2, fun _ => r2.inv hinv (by omega), by rw [r4], by rw [r4], fun st h1 _ => by simp at h1⟩
+    exact ⟨by triv, r1, r2.2.2, r2.inv hinv (by omega), by rw [r4], by rw [r4], fun st h1 _ => by simp at h1⟩
   | filterMut =>
     obtain ⟨r1, r2, r3, r4, r5, r6, r7, r8⟩ := filterMut_spec cfg.pred a m hinv
     simp only [step, Spec.Seq.step]
-    refine ⟨?_, r2, r3.2.2, fun _ => r3.inv hinv r4, by rw [r5], by rw [r5], fun st h1 h2 => ?_⟩
+    refine ⟨?_, r2, r3.2.2, r3.inv hinv r4, by rw [r5], by rw [r5], fun st h1 h2 => ?_⟩
     · by_cases hok : (a.filterMut cfg.pred m).1 = .ok
       · have : (Spec.Seq.filterMut cfg.pred a.abs).1 = .ok := by rw [← r1]; exact hok
         rw [r6 hok, ← r1, hok]; simp
@@ -116,38 +115,38 @@ theorem step_spec (cfg : Cfg) (a : Arr) (op : Op) (m : Mem) (hinv : a.Inv) (hliv
   | sort =>
     obtain ⟨r1, r2, r3, r4⟩ := sort_spec cfg.sortFn a m hinv (hsort _)
     simp only [step, Spec.Seq.step]
-    exact ⟨by triv, r1, r2.2.2, fun _ => r2.inv hinv (by omega), by rw [r4], by rw [r4], fun st h1 _ => by simp at h1⟩
+    exact ⟨by triv, r1, r2.2.2, r2.inv hinv (by omega), by rw [r4], by rw [r4], fun st h1 _ => by simp at h1⟩
   | getAt i =>
     obtain ⟨r1, r2, r3, r4⟩ := getAt_spec a i m hinv
     simp only [step, Spec.Seq.step]
-    exact ⟨by rw [r1, r2], by triv, by triv, fun _ => hinv, by rw [r3], by rw [r3], fun _ _ _ => by triv⟩
+    exact ⟨by rw [r1, r2], by triv, by triv, hinv, by rw [r3], by rw [r3], fun _ _ _ => by triv⟩
   | getLast =>
     obtain ⟨r1, r2, r3, r4⟩ := getLast_spec a m hinv
     simp only [step, Spec.Seq.step]
-    exact ⟨by rw [r1, r2], by triv, by triv, fun _ => hinv, by rw [r3], by rw [r3], fun _ _ _ => by triv⟩
+    exact ⟨by rw [r1, r2], by triv, by triv, hinv, by rw [r3], by rw [r3], fun _ _ _ => by triv⟩
   | indexOf x =>
     obtain ⟨r1, r2, r3, r4, r5, r6⟩ := indexOf_spec a x m hinv
     simp only [step, Spec.Seq.step]
-    exact ⟨by rw [r1, r2], by triv, by triv, fun _ => hinv, by rw [r3], by rw [r3], fun _ _ _ => by triv⟩
+    exact ⟨by rw [r1, r2], by triv, by triv, hinv, by rw [r3], by rw [r3], fun _ _ _ => by triv⟩
   | contains x =>
     obtain ⟨r1, r2⟩ := contains_spec a x m hinv
     simp only [step, Spec.Seq.step]
-    exact ⟨by rw [r1], by triv, by triv, fun _ => hinv, by rw [r2], by rw [r2], fun _ _ _ => by triv⟩
+    exact ⟨by rw [r1], by triv, by triv, hinv, by rw [r2], by rw [r2], fun _ _ _ => by triv⟩
   | containsValue x =>
     obtain ⟨r1, r2⟩ := containsValue_spec cfg.cmp a x m hinv
     simp only [step, Spec.Seq.step]
-    exact ⟨by rw [r1], by triv, by triv, fun _ => hinv, by rw [r2], by rw [r2], fun _ _ _ => by triv⟩
+    exact ⟨by rw [r1], by triv, by triv, hinv, by rw [r2], by rw [r2], fun _ _ _ => by triv⟩
   | size =>
     simp only [step, Spec.Seq.step]
-    exact ⟨by simp, by triv, by triv, fun _ => hinv, by triv, by triv, fun _ _ _ => by triv⟩
+    exact ⟨by simp, by triv, by triv, hinv, by triv, by triv, fun _ _ _ => by triv⟩
   | map =>
     obtain ⟨r1, r2⟩ := map_spec a m hinv
     simp only [step, Spec.Seq.step]
-    exact ⟨by rw [r1], by triv, by triv, fun _ => hinv, by rw [r2], by rw [r2], fun _ _ _ => by triv⟩
+    exact ⟨by rw [r1], by triv, by triv, hinv, by rw [r2], by rw [r2], fun _ _ _ => by triv⟩
   | reduce r0 =>
     obtain ⟨r1, r2, r3⟩ := reduce_spec cfg.fn a r0 m hinv
     simp only [step, Spec.Seq.step]
-    exact ⟨by rw [r1, r2], by triv, by triv, fun _ => hinv, by rw [r3], by rw [r3], fun _ _ _ => by triv⟩
+    exact ⟨by rw [r1, r2], by triv, by triv, hinv, by rw [r3], by rw [r3], fun _ _ _ => by triv⟩
 
 theorem run_length (cfg : Cfg) (ops : List Op) : ∀ (a : Arr) (m : Mem), (a.run cfg ops m).1.length = ops.length := by
   induction ops with
@@ -162,7 +161,7 @@ theorem iterStep_sim (a : Arr) (it : ArrIter) (c : Cursor) (op : IterOp) (m : Me
     (a.iterStep it op m).1 = (c.step op (a.iterStep it op m).1.blocked).1 ∧
     Sim (a.iterStep it op m).2.1 (a.iterStep it op m).2.2.1 (c.step op (a.iterStep it op m).1.blocked).2 ∧
     (a.iterStep it op m).2.1.grow = a.grow ∧
-    (a.grow a.capacity ≤ Gen.CC_MAX_ELEMENTS → (a.iterStep it op m).2.1.Inv) ∧
+    (a.iterStep it op m).2.1.Inv ∧
     (a.iterStep it op m).2.2.2.live = m.live ∧ (a.iterStep it op m).2.2.2.fault = m.fault ∧
     (∀ st, (a.iterStep it op m).1.st = some st → st ≠ .ok →
       (a.iterStep it op m).2.1 = a ∧ (a.iterStep it op m).2.2.1 = it) := by
@@ -170,7 +169,7 @@ theorem iterStep_sim (a : Arr) (it : ArrIter) (c : Cursor) (op : IterOp) (m : Me
   | next =>
     obtain ⟨r1, r2, r3, r4⟩ := iterNext_sim a it c m hinv hs
     simp only [iterStep, Cursor.step]
-    refine ⟨by rw [r1, r2], r3, by triv, fun _ => hinv, by rw [r4], by rw [r4], fun st h1 h2 => ⟨by triv, ?_⟩⟩
+    refine ⟨by rw [r1, r2], r3, by triv, hinv, by rw [r4], by rw [r4], fun st h1 h2 => ⟨by triv, ?_⟩⟩
     simp only [Option.some.injEq] at h1
     have hne : (a.iterNext it m).1 ≠ .ok := by rw [h1]; exact h2
     unfold iterNext at hne ⊢
@@ -180,7 +179,7 @@ theorem iterStep_sim (a : Arr) (it : ArrIter) (c : Cursor) (op : IterOp) (m : Me
   | remove =>
     obtain ⟨r1, r2, r3, r4, r5, r6, r7⟩ := iterRemove_sim a it c m hinv hs
     simp only [iterStep, Cursor.step]
-    refine ⟨by rw [r1, r2], r3, r4.2.2, fun _ => r4.inv hinv r5, by rw [r6], by rw [r6], fun st h1 h2 => ?_⟩
+    refine ⟨by rw [r1, r2], r3, r4.2.2, r4.inv hinv r5, by rw [r6], by rw [r6], fun st h1 h2 => ?_⟩
     simp only [Option.some.injEq] at h1
     exact r7 (by rw [h1]; exact h2)
   | add x =>
@@ -188,19 +187,19 @@ theorem iterStep_sim (a : Arr) (it : ArrIter) (c : Cursor) (op : IterOp) (m : Me
     simp only [iterStep, Cursor.step, blocked_mk]
     rcases sp with ⟨ok, hsim, hg⟩ | ⟨hb, hsame, hit⟩
     · simp only [ok]
-      refine ⟨by simp [Cursor.add], by simpa using hsim, hg.2.2.2.2, fun h => hg.inv hinv h, sl, sf, fun st h1 h2 => ?_⟩
+      refine ⟨by simp [Cursor.add], by simpa using hsim, hg.2.2.2.2, hg.inv hinv, sl, sf, fun st h1 h2 => ?_⟩
       simp at h1; exact absurd h1.symm h2
     · rcases hb.1 with ⟨h, _⟩ | ⟨h, _⟩ <;>
       · simp only [h, hsame, hit]
-        exact ⟨by simp, by simpa using hs, by triv, fun _ => hinv, sl, sf, fun _ _ _ => ⟨by triv, by triv⟩⟩
+        exact ⟨by simp, by simpa using hs, by triv, hinv, sl, sf, fun _ _ _ => ⟨by triv, by triv⟩⟩
   | replace x =>
     obtain ⟨r1, r2, r3, r4, r5, r6, r7⟩ := iterReplace_sim a it c x m hinv hs
     simp only [iterStep, Cursor.step]
-    refine ⟨by rw [r1, r2], r3, r4.2.2, fun _ => r4.inv hinv (by omega), by rw [r6], by rw [r6], fun st h1 h2 => ⟨?_, by triv⟩⟩
+    refine ⟨by rw [r1, r2], r3, r4.2.2, r4.inv hinv (by omega), by rw [r6], by rw [r6], fun st h1 h2 => ⟨?_, by triv⟩⟩
     simp only [Option.some.injEq] at h1
     exact r7 (by rw [h1]; exact h2)
   | index =>
     simp only [iterStep, Cursor.step]
-    exact ⟨by rw [iterIndex_sim a it c hs], hs, by triv, fun _ => hinv, by triv, by triv, fun _ _ _ => ⟨by triv, by triv⟩⟩
+    exact ⟨by rw [iterIndex_sim a it c hs], hs, by triv, hinv, by triv, by triv, fun _ _ _ => ⟨by triv, by triv⟩⟩
 
 end CC.Arr
